@@ -41,6 +41,8 @@ def gen_cases(ctx):
             for p in ps:
                 if rng.random() < 0.7:
                     p["single"] = True
+        if rng.random() < 0.3:       # some predicates raise on some events (the run must stay as it was, C14)
+            G.add_raises(rng, cfg)
         if rng.random() < 0.25:      # some notifications are refused by a later subscriber (the caller carries on)
             cfg = dict(cfg, refuse=sorted(rng.sample(range(12), 2)))
         cases.append((cfg, G.rand_ops(rng, cfg, rng.randint(3, 10 if ctx.quick else 25), premote=0.4, multi_single=True)))
@@ -81,6 +83,14 @@ def work(case):
                                                         len(dec.runs_from(PL.phname(ph), PL.patname(p["name"])))), detail=None)
         for ph, p in singles:
             runs = dec.runs_from(PL.phname(ph), PL.patname(p["name"]))
+            dead = [r for r in runs if r.is_halted() or r.is_complete()]
+            if dead and fail is None:
+                # "a new run can start as soon as the current one has completed or halted": a finished run that still
+                # occupies the pattern's slot keeps every later run out
+                fail = dict(signature="finished-run-occupies-singleton-slot", step=k,
+                            what="run %s of singleton pattern %s has %s but is still held as the pattern's active run"
+                                 % (dead[0].run_id, PL.patname(p["name"]), "halted" if dead[0].is_halted() else "completed"),
+                            detail=None)
             if len(runs) > 1 and fail is None:
                 fail = dict(signature="two-active-singleton-runs", step=k,
                             what="singleton pattern %s has %d active runs" % (PL.patname(p["name"]), len(runs)),
